@@ -126,6 +126,35 @@ def c06(tier):
     obs = [ob_crc_step("C06"), ob_fm_gate("C06")]
     return obs, dict(assumptions=CXX_ASSUME)
 
+W_ID = "w_identify.cc"
+ID_UNWIND = [("X_strlen", 64), ("X_mem", 64), ("symbolic_sector", 258), ("h_watford", 258), ("h_fragment.0", 258), ("h_fragment.1", 258), ("smells_like_watford", 34),
+             ("CatalogFragment", 34), ("find_last_not_of", 16), ("rfind", 16)]
+def ob_watford(pid):
+    return X.cxx_ob(pid, "watford", W_ID, "h_watford",
+                    "smells_like_watford on an arbitrary sector 1 and arbitrary first 8 bytes of sector 2 (or unreadable sector 2): true iff the 0xAA "
+                    "recognition bytes are present and no catalogued entry has 10-bit start sector 2; smells_like_hdfs = flag bit",
+                    "256+8 symbolic bytes, medium size 16-bit symbolic", ["dfs/identify.cc:smells_like_watford", "smells_like_hdfs", "eliminated_format"],
+                    unwind=34, unwindset=ID_UNWIND)
+def ob_fragment(pid, entries):
+    return X.cxx_ob(pid, "fragment.E%d" % entries, W_ID, "h_fragment",
+                    "CatalogFragment constructor on arbitrary catalogue sectors: title (12 chars, 7-bit, NUL-terminated, right-trimmed), cycle, boot option, "
+                    "total sectors, entry count, and entry k (symbolic k) built from bytes 8+8k of both sectors incl. name()/directory()",
+                    "first %d bytes of both sectors symbolic, <= %d entries" % (8 + 8 * entries, entries),
+                    ["dfs/dfs_catalog.cc:CatalogFragment::CatalogFragment", "convert_title", "CatalogEntry::name", "CatalogFragment::entries", "stringutil::rtrim"],
+                    unwind=14, unwindset=[("h_fragment.0", 258), ("h_fragment.1", 258), ("CatalogFragmentC2", max(entries + 2, 10)), ("realloc_insert", entries + 2),
+                                          ("X_strlen", 64), ("X_mem", 16), ("find_last_not_of", 14), ("rfind", 14)],
+                    defines=("NDEBUG", "FRAG_ENTRIES=%d" % entries), weight_gb=6)
+
+@prop("C13")
+def c13(tier):
+    obs = [ob_watford("C13")]
+    return obs, dict(assumptions=CXX_ASSUME)
+
+@prop("C02")
+def c02(tier):
+    obs = [ob_entry_fields("C02"), ob_fragment("C02", 3 if tier == "quick" else 31), ob_crc_step("C02")]
+    return obs, dict(assumptions=CXX_ASSUME)
+
 W_STOR = "w_storage.cc"
 @prop("C16")
 def c16(tier):
@@ -167,6 +196,31 @@ def c01(tier):
 def c17(tier):
     obs = [ob_volume_access("C17"), ob_fileview_far("C17")] + [ob_fileview("C17", t) for t in ((10, 800) if tier == "quick" else TAKES_ALL)]
     return obs, dict(assumptions=CXX_ASSUME)
+
+@prop("C11")
+def c11(tier):
+    L = 5 if tier == "quick" else 8
+    ds = [("6502", 0), ("ARM", 2)] if tier == "quick" else B.DIALECTS
+    obs = [B.line_ob("C11", d, n, "IOFAIL", L) for d, n in ds]
+    obs += [B.main_ob("C11", "IOFAIL", ndebug=True)]
+    return obs, dict(assumptions=BASIC_ASSUME + ["stdout failure model: each stdout call may report failure (and set the error indicator) from a "
+        "nondeterministically chosen call on, or be accepted into a buffer that fails at the next fflush -- ISO C guarantees only, no glibc specifics"])
+
+@prop("C19")
+def c19(tier):
+    """Both build flavours are compared with the same oracle: equal to the oracle => equal to each other."""
+    L = 5 if tier == "quick" else 8
+    N = 12 if tier == "quick" else 20
+    ds = [("6502", 0), ("PDP11", 5), ("ARM", 2)] if tier == "quick" else B.DIALECTS
+    obs = []
+    for nd in (True, False):
+        obs += [B.line_ob("C19", d, n, "CONFORM", L, ndebug=nd) for d, n in ds]
+        obs += [B.line_ob("C19", d, n, "REJECT", L, ndebug=nd) for d, n in ds[:2]]
+        obs += [B.framing_ob("C19", e, "FRAME", N, ndebug=nd) for e in ("BE", "LE")]
+        obs += [B.main_ob("C19", "SAFE", ndebug=nd), B.main_ob("C19", "FILES", ndebug=nd)]
+    return obs, dict(assumptions=BASIC_ASSUME + ["C19 is decided by comparing BOTH build flavours (-DNDEBUG and assertions enabled, where a failing "
+        "assert is itself a reported property) against the same oracle on the same symbolic inputs; agreement with the oracle on accepted and "
+        "rejected inputs implies agreement with each other there"])
 
 def cli_replay(pid, ob, values, outdir):
     kind = ob.result["spec"]["cli"]["kind"]
